@@ -68,6 +68,7 @@ def Cst.lexM : Cst → List Lex
   | .selOr e c1 _ _ attrs c2 _ _ d => e.lexM ++ ncm c1 ++ attrLex attrs ++ ncm c2 ++ .tok ['o', 'r'] :: d.lexM
   | .lam n c1 _ c2 _ b => .tok n :: ncm c1 ++ .tok [':'] :: ncm c2 ++ b.lexM
   | .un op c _ e => .tok op :: ncm c ++ e.lexM
+  | .bin l c1 _ op c2 _ r => l.lexM ++ ncm c1 ++ .tok op :: ncm c2 ++ r.lexM
 def Items.lexM : Items → List Lex
   | .nil => []
   | .cmt _ t rest => normCmt t :: rest.lexM
@@ -225,6 +226,7 @@ theorem ok_setBefore {e : Expr} (h : e.ok) {b : List Trivia} (hb : TrivOk b) : (
   | selOr e ats g ab d dg db b' a => exact ⟨h.1, h.2.1, h.2.2.1, h.2.2.2.1, h.2.2.2.2.1, h.2.2.2.2.2.1, hb, h.2.2.2.2.2.2.2⟩
   | lam n c g k bd b' a => exact ⟨h.1, h.2.1, h.2.2.1, hb, h.2.2.2.2⟩
   | un o e g bt b' a => exact ⟨h.1, h.2.1, h.2.2.1, hb, h.2.2.2.2⟩
+  | bin o l r x y b' a => exact ⟨h.1, h.2.1, h.2.2.1, hb, h.2.2.2.2⟩
 
 theorem ok_setAfter {e : Expr} (h : e.ok) {a : List Trivia} (ha : TrivOk a) : (e.setAfter a).ok := by
   cases e with
@@ -240,6 +242,7 @@ theorem ok_setAfter {e : Expr} (h : e.ok) {a : List Trivia} (ha : TrivOk a) : (e
   | selOr e ats g ab d dg db b a' => exact ⟨h.1, h.2.1, h.2.2.1, h.2.2.2.1, h.2.2.2.2.1, h.2.2.2.2.2.1, h.2.2.2.2.2.2.1, ha⟩
   | lam n c g k bd b a' => exact ⟨h.1, h.2.1, h.2.2.1, h.2.2.2.1, ha⟩
   | un o e g bt b a' => exact ⟨h.1, h.2.1, h.2.2.1, h.2.2.2.1, ha⟩
+  | bin o l r x y b a' => exact ⟨h.1, h.2.1, h.2.2.1, h.2.2.2.1, ha⟩
 
 theorem ok_addAfter {e : Expr} (h : e.ok) {a : List Trivia} (ha : TrivOk a) : (e.addAfter a).ok :=
   ok_setAfter h (trivOk_append (ok_after h) ha)
@@ -269,6 +272,7 @@ theorem lexOut_setBefore (e : Expr) (hb : e.before = []) (b : List Trivia) (na :
   | selOr e ats g ab d dg db b' a => simp only [Expr.before] at hb; subst hb; simp [Expr.setBefore, Expr.lexOut]
   | lam n c g k bd b' a => simp only [Expr.before] at hb; subst hb; simp [Expr.setBefore, Expr.lexOut]
   | un o e g bt b' a => simp only [Expr.before] at hb; subst hb; simp [Expr.setBefore, Expr.lexOut]
+  | bin o l r x y b' a => simp only [Expr.before] at hb; subst hb; simp [Expr.setBefore, Expr.lexOut]
 
 theorem modifyLast_isEmpty' {α : Type} (f : α → α) : ∀ (l : List α), (modifyLast f l).isEmpty = l.isEmpty
   | [] => rfl
@@ -317,6 +321,7 @@ theorem lexOut_addAfter (e : Expr) (hna : e.isAsrtE = false) (ts : List Trivia) 
   | selOr e ats g ab d dg db b a => simp [Expr.addAfter, Expr.setAfter, Expr.after, Expr.lexOut]
   | lam n c g k bd b a => simp [Expr.addAfter, Expr.setAfter, Expr.after, Expr.lexOut]
   | un o e g bt b a => simp [Expr.addAfter, Expr.setAfter, Expr.after, Expr.lexOut]
+  | bin o l r x y b a => simp [Expr.addAfter, Expr.setAfter, Expr.after, Expr.lexOut]
   | asrt c bd x y b a => cases hna
   | leaf k t b a => simp [Expr.addAfter, Expr.setAfter, Expr.after, Expr.lexOut]
   | list v m inn b a => simp [Expr.addAfter, Expr.setAfter, Expr.after, Expr.lexOut]
@@ -339,6 +344,7 @@ theorem lexOut_addAfter_true (e : Expr) (ts : List Trivia) : (e.addAfter ts).lex
   | selOr e ats g ab d dg db b a => simp [Expr.addAfter, Expr.setAfter, Expr.after, Expr.lexOut]
   | lam n c g k bd b a => simp [Expr.addAfter, Expr.setAfter, Expr.after, Expr.lexOut]
   | un o e g bt b a => simp [Expr.addAfter, Expr.setAfter, Expr.after, Expr.lexOut]
+  | bin o l r x y b a => simp [Expr.addAfter, Expr.setAfter, Expr.after, Expr.lexOut]
 
 theorem lexOut_true_of_after_nil (e : Expr) (h : e.after = []) : e.lexOut true = e.lexOut false := by
   cases e with
@@ -354,6 +360,7 @@ theorem lexOut_true_of_after_nil (e : Expr) (h : e.after = []) : e.lexOut true =
   | selOr e ats g ab d dg db b a => simp only [Expr.after] at h; subst h; simp [Expr.lexOut]
   | lam n c g k bd b a => simp only [Expr.after] at h; subst h; simp [Expr.lexOut]
   | un o e g bt b a => simp only [Expr.after] at h; subst h; simp [Expr.lexOut]
+  | bin o l r x y b a => simp only [Expr.after] at h; subst h; simp [Expr.lexOut]
 
 theorem modifyLast_isEmpty {α : Type} (f : α → α) : ∀ (l : List α), (modifyLast f l).isEmpty = l.isEmpty
   | [] => rfl
@@ -403,6 +410,7 @@ theorem lexOut_addAfter_proj (strict : Bool) (e : Expr) (ts : List Trivia)
     | selOr => cases hA
     | lam => cases hA
     | un => cases hA
+    | bin => cases hA
 
 theorem modifyLast_addAfter (strict : Bool) : ∀ (items : List Expr) (ts : List Trivia), items ≠ [] →
     (strict = true → lastAsrt items = true → cm ts = []) →
@@ -1095,6 +1103,24 @@ theorem cst_parse_spec (strict : Bool) : (c : Cst) → c.wf = true → (strict =
       ⟨hsop, heok, by simp [collectTrivia, collectGo], trivOk_nil, trivOk_nil⟩, rfl, rfl, ?_, rfl⟩
     simp only [Expr.lexOut, Cst.lexM, cm_nil, List.nil_append, List.append_nil, if_false, Bool.false_eq_true, ncm, List.map_nil]
     simp only [proj_append, hel]
+  | .bin l c1 g1 op c2 g2 r, hwf, hord => by
+    simp only [Cst.wf, Bool.and_eq_true, List.isEmpty_iff] at hwf
+    obtain ⟨⟨⟨⟨⟨⟨⟨hlw, hc1⟩, _⟩, hop⟩, _⟩, hc2⟩, _⟩, hrw⟩ := hwf
+    subst hc1; subst hc2
+    have hord' : strict = true → l.orderOk = true ∧ r.orderOk = true := by
+      intro hs
+      have := hord hs
+      simpa [Cst.orderOk] using this
+    obtain ⟨le, hpl, hlok, _, _, hll, _⟩ := cst_parse_spec strict l hlw (fun hs => (hord' hs).1)
+    obtain ⟨re, hpr, hrok, _, _, hrl, _⟩ := cst_parse_spec strict r hrw (fun hs => (hord' hs).2)
+    have hsop : solidT op := by
+      simp only [binOpOk, List.any_cons, List.any_nil, Bool.or_false, Bool.or_eq_true, beq_iff_eq] at hop
+      rcases hop with h | h | h | h | h | h | h | h | h | h | h | h | h | h | h <;> subst h <;>
+        exact ⟨by simp, by simp [endsWithNL]⟩
+    refine ⟨.bin op le re (g1.count '\n') (g2.count '\n') [] [], by simp only [Cst.parse, hpl, hpr],
+      ⟨hsop, hlok, hrok, trivOk_nil, trivOk_nil⟩, rfl, rfl, ?_, rfl⟩
+    simp only [Expr.lexOut, Cst.lexM, cm_nil, List.nil_append, List.append_nil, if_false, Bool.false_eq_true, ncm, List.map_nil]
+    simp only [proj_append, hll, hrl]
 theorem items_parse_spec (strict : Bool) : (its : Items) → ∀ (m : Mode) (cg : Text) (st : SeqSt) (pend : Bool),
     its.wf m cg = true → StOk st →
     (strict = true → its.orderOk m st.prev pend (!st.items.isEmpty) = true ∧ (pend = false → cm st.before = []) ∧
@@ -1337,6 +1363,11 @@ theorem cst_toks_lexM : (c : Cst) → toksL c.lexM = toksL c.lex
     rw [show Lex.tok op :: ncm c ++ e.lexM = [Lex.tok op] ++ ncm c ++ e.lexM from by simp,
       show Lex.tok op :: lexGC c ++ e.lex = [Lex.tok op] ++ lexGC c ++ e.lex from by simp]
     simp only [toksL_append, toksL_ncm, toksL_lexGC, cst_toks_lexM e]
+  | .bin l c1 _ op c2 _ r => by
+    simp only [Cst.lexM, Cst.lex]
+    rw [show l.lexM ++ ncm c1 ++ Lex.tok op :: ncm c2 ++ r.lexM = l.lexM ++ ncm c1 ++ [Lex.tok op] ++ ncm c2 ++ r.lexM from by simp,
+      show l.lex ++ lexGC c1 ++ Lex.tok op :: lexGC c2 ++ r.lex = l.lex ++ lexGC c1 ++ [Lex.tok op] ++ lexGC c2 ++ r.lex from by simp]
+    simp only [toksL_append, toksL_ncm, toksL_lexGC, cst_toks_lexM l, cst_toks_lexM r]
 theorem items_toks_lexM : (its : Items) → toksL its.lexM = toksL its.lex
   | .nil => rfl
   | .cmt _ t rest => by
